@@ -1,43 +1,18 @@
-import TLVerif.Util.Hex
-import TLVerif.Codec.TL1
-/-! Line-protocol handler of the `codec` family. Stateful: `codec.desc` lines register descriptors. -/
+import TLVerif.Codec.Ops.TL1
+import TLVerif.Codec.Ops.TL2
+import TLVerif.Codec.Ops.Json
+import TLVerif.Codec.Ops.Misc
+/-! Line-protocol handler of the `codec` family. Stateful: `codec.desc` lines register descriptors;
+every other op is answered by the first per-aspect handler (Ops/*.lean) that recognises it. -/
 namespace TLVerif.Codec
-open TLVerif.Util TLVerif.Prim
 
-structure Schema where
-  cfg : Cfg
-  desc : Desc
+def opHandlers : List OpHandler := [handleTL1, handleTL2, handleJson, handleMisc]
 
-abbrev DState := List (String × Schema)
-
-def DState.init : DState := []
-
-def errStr : CErr → String
-  | .eof => "err eof"
-  | .rej => "err rej"
-  | .desc => "model-err desc"
-  | .fuel => "model-err fuel"
-  | .shape => "err shape"
-
-def fuelFor (d : Desc) (n : Nat) : Nat := n + d.insts.size + 16
-
-def outBytes (r : Except CErr Bytes) : String :=
-  match r with
-  | .ok b => hexOfBytes b
-  | .error .shape => "werr"
-  | .error e => "!" ++ errStr e
-
-/-- can this instance be written/read boxed on its own (has a tag or is a union)? -/
-def hasBoxed (d : Desc) (ty : Nat) : Bool :=
-  match d.get? ty with
-  | some (.struct s) => s.tag != 0
-  | some (.union _) => true
-  | _ => false
-
-def isUnion (d : Desc) (ty : Nat) : Bool :=
-  match d.get? ty with
-  | some (.union _) => true
-  | _ => false
+def firstSome (st : DState) (op : String) (args : List String) : List OpHandler → String
+  | [] => "bad-op"
+  | h :: hs => match h st op args with
+    | some r => r
+    | none => firstSome st op args hs
 
 def handleS (st : DState) (op : String) (args : List String) : DState × String :=
   match op, args with
@@ -45,19 +20,6 @@ def handleS (st : DState) (op : String) (args : List String) : DState × String 
     match parseDesc toks with
     | some d => ((sid, { cfg := { sanity := sanity == "1" }, desc := d }) :: st, s!"ok {d.insts.size}")
     | none => (st, "bad-desc")
-  | "x1", [sid, ty, _name, boxed, h] =>
-    match st.lookup sid, ty.toNat?, bytesOfHex h with
-    | some sc, some ty, some bs =>
-      let d := sc.desc
-      let fuel := fuelFor d bs.length
-      let bare := boxed != "1"
-      match readTL1 sc.cfg d fuel ty bare [] bs with
-      | .error e => (st, errStr e)
-      | .ok (v, rest) =>
-        let w1 := if isUnion d ty then "n/a" else outBytes (writeTL1 d fuel ty true [] v)
-        let w1b := if hasBoxed d ty then outBytes (writeTL1 d fuel ty false [] v) else "n/a"
-        (st, s!"ok {bs.length - rest.length} w1={w1} w1b={w1b}")
-    | _, _, _ => (st, "bad-op")
-  | _, _ => (st, "bad-op")
+  | _, _ => (st, firstSome st op args opHandlers)
 
 end TLVerif.Codec
